@@ -100,8 +100,7 @@ type Env struct {
 	CurOff   int    // bytes of the current event handed to Write so far
 	rdOff    int    // bytes of the event being read so far
 	rdCid    int
-	Stall    bool
-	Observer bool
+	RecordIO bool // record one IO event per write/sync/truncate (crash points)
 }
 
 // Emit appends an event.
@@ -122,6 +121,11 @@ func (e *Env) Events() []core.Event {
 func New(name string, opts txfile.Options, writeBuffer uint) *Env {
 	core.InstallHook()
 	e := &Env{Disk: simdisk.New(name), Opts: opts, PS: int(opts.PageSize)}
+	e.Disk.OnOp = func(op *simdisk.Op) {
+		if e.RecordIO && (op.Kind == simdisk.OpWrite || op.Kind == simdisk.OpSync || op.Kind == simdisk.OpTruncate) {
+			e.Emit(core.Event{"ev": "IO", "io": op.Idx, "k": op.Kind})
+		}
+	}
 	e.Set = pq.Settings{
 		WriteBuffer: writeBuffer,
 		Flushed:     func(n uint) { e.Emit(core.Event{"ev": "Flushed", "n": n}) },
